@@ -290,7 +290,18 @@ def impl_obs(case, quiet):
                 "summary": [[loc, [c[k] for k in STATKEYS]] for loc, c in o.summary.items()],
                 "json": o.toJSON()["details"],
                 "flat": [[list(p), [show_detail(x) for x in v]] for p, v in flat(o.details)]}
-    return {"canon": canon, "rets": rets, "list": plain(ol), "obs": [plain(o) for o in ol], "exit": rc}
+    def text_of(f):
+        try:
+            return {"text": f()}
+        except Exception as e:   # noqa
+            return {"exc": type(e).__name__}
+
+    def raw(o):
+        """the stored lists with their items as (category, value) pairs, read off the object graph"""
+        return [[list(p), [list(next(iter(x.items()))) for x in v]] for p, v in flat(o.details)]
+    return {"canon": canon, "rets": rets, "list": plain(ol), "obs": [plain(o) for o in ol], "exit": rc,
+            "details_text": text_of(ol.serializeDetails), "summaries_text": text_of(ol.serializeSummaries),
+            "list_items": raw(ol)}
 
 
 # ------------------------------------------------------------------ whole command
